@@ -107,7 +107,14 @@ struct World {
 		for(int i = 0; i < ne; ++i) q.enqueue(1 + (int)(r.next() % 2), Payload((int)(r.next() % 20)));
 		if(ne > 1 && r.next() % 2) { q.processOne(); }   // leaves a recycled slot
 		hl.append(Cb(40)); hl.append(PCb(41));
-		if(r.next() % 2) hother.append(Cb(42));
+		// the source of hl.assign: callbacks under the first prototype, the second, or both (a copy that fails in a
+		// later slot must not leave earlier slots of the destination overwritten)
+		{
+			unsigned k = r.next() % 4;
+			if(k & 1) hother.append(Cb(42));
+			if(k & 2) { hother.append(PCb(43)); if(r.next() % 2) hother.append(PCb(44)); }
+			if(k == 3 && r.next() % 2) hother.append(Cb(45));
+		}
 		rem.reset(new eventpp::ScopedRemover<CL>(list));
 		if(r.next() % 2) rem->append(Cb(50));
 	}
@@ -131,9 +138,11 @@ struct World {
 		s += std::string(" | ec=") + std::to_string((int)q.queueEmptyCounter.load()) + " nc=" + std::to_string((int)q.queueNotifyCounter.load())
 			+ " emptyQueue=" + (q.emptyQueue() ? "1" : "0") + (freeBad ? " FREE-SLOT-OCCUPIED" : "");
 		int hn = 0;
-		hl.forEach<void(int)>([&hn](const std::function<void(int)> &) { ++hn; });
-		hl.forEach<void(const Payload &)>([&hn](const std::function<void(const Payload &)> &) { ++hn; });
-		s += " | HL=" + std::to_string(hn) + " | remItems=" + std::to_string(rem ? rem->itemList.size() : 0);
+		std::string hids;
+		hl.forEach<void(int)>([&](const std::function<void(int)> & cb) { ++hn; hids += "," + std::to_string(cb.target<Cb>() ? cb.target<Cb>()->id : -1); });
+		hids += ";";
+		hl.forEach<void(const Payload &)>([&](const std::function<void(const Payload &)> & cb) { ++hn; hids += "," + std::to_string(cb.target<PCb>() ? cb.target<PCb>()->id : -1); });
+		s += " | HL=" + std::to_string(hn) + hids + " | remItems=" + std::to_string(rem ? rem->itemList.size() : 0);
 		return s;
 	}
 
